@@ -418,8 +418,12 @@ parsefeatures:
 			sf.total++
 
 			// Always add the feature to the list of features, even if we don't
-			// support it, it just won't contain any parse output.
-			s.features[tok.Name.Space] = nil
+			// support it, it just won't contain any parse output. Features are keyed
+			// by namespace: a second element in a namespace that was already seen
+			// must not wipe out what was parsed for the first.
+			if _, seen := s.features[tok.Name.Space]; !seen {
+				s.features[tok.Name.Space] = nil
+			}
 
 			feature, ok := getFeature(tok.Name, features)
 			if ok {
